@@ -51,7 +51,7 @@ ASSUMPTIONS = [
     "right-hand sides of norm O(1) (plus the exact-zero B shortcut); tiny-norm B (early return of the iterative solvers) is not generated",
 ]
 BUDGET = {"quick": {"worker_timeout": 900, "case_timeout": 150}, "thorough": {"worker_timeout": 3300, "case_timeout": 300}}
-SHARDS_PER_JOB = 3
+SHARDS_PER_JOB = 2
 REQUIRED_COUNTERS = {
     "quick": {"compared_first_nograph": 800, "compared_first_graph": 800, "compared_second": 780,
               "backward_solver_calls": 1500, "bck_method_checked": 450, "spy_backward_calls": 200, "fwd_cg": 100,
